@@ -520,10 +520,10 @@ func c08PeersReadFails(ev *vlib.Evidence, driver string, idx int) {
 			return
 		}
 	}
-	if len(got) != want {
+	if len(got) > want {
 		detail["err_after_recovery"] = fmt.Sprint(out.Err)
-		detail["returned"], detail["expected"] = len(got), want
-		ev.Violate("wrong-count-after-recovery:peers-read-fails", detail)
+		detail["returned"], detail["eligible"] = len(got), want
+		ev.Violate("more-hosts-than-eligible-after-recovery:peers-read-fails", detail)
 	}
 }
 
@@ -857,6 +857,10 @@ func c11PeerRecordUnreadable(ev *vlib.Evidence, idx int) {
 	for _, p := range peers {
 		tracked = tracked || p.ID == b
 	}
+	if time.Since(t0) > 60*time.Second {
+		ev.Inconclusive("c11 unreadable-record: the scenario took so long that check-ins may have expired on their own")
+		return
+	}
 	inactive2, uerr2 := s.UpdateNodePeers(a, []string{string(b), string(other)}, 4)
 	detail["tracked_after_restore"], detail["peers_error"] = tracked, fmt.Sprint(perr)
 	detail["next_keep_alive"] = fmt.Sprintf("invalid=%v err=%v", inactive2, uerr2)
@@ -1048,7 +1052,7 @@ func c14ReplyWriteFails(ev *vlib.Evidence, idx int) {
 		case n > 1:
 			ev.Violate("request-handled-more-than-once:reply-write-failed", detail)
 			return
-		case n == 0:
+		case n == 0 && !lost[o.token]:
 			ev.Violate("request-not-handled:reply-write-fails-scenario", detail)
 			return
 		case !lost[o.token] && (o.err != nil || o.rep.Token != o.token):
@@ -1564,13 +1568,29 @@ func c17HTTPReplyLost(ev *vlib.Evidence, idx int) {
 		}
 		cerr := svc.Call(ctx, &got, "deliver", tok)
 		cancel()
-		time.Sleep(10 * time.Millisecond)
+		if how != "" {
+			// the call has failed on the client side; the server may still be busy with the message
+			for spins := 0; spins < 5000; spins++ {
+				ds.mu.Lock()
+				h := ds.counts[tok]
+				ds.mu.Unlock()
+				if h > 0 {
+					break
+				}
+				time.Sleep(time.Millisecond)
+			}
+			time.Sleep(50 * time.Millisecond) // a second delivery, if any, has arrived by now
+		}
 		ds.mu.Lock()
 		handled := ds.counts[tok]
 		ds.mu.Unlock()
 		mu.Lock()
 		seen := reads[tok]
 		mu.Unlock()
+		if how != "" && (seen == 0 || handled == 0) {
+			ev.Inconclusive("c17 http reply-lost: the server never got to the message within 5 s")
+			return
+		}
 		ev.Count("messages:http-with-lost-replies", 1)
 		detail := map[string]interface{}{"message": k, "reply": map[string]string{"": "delivered"}[how] + how, "call_error": fmt.Sprint(cerr), "read_by_server": seen, "handled": handled, "index": idx}
 		switch {
